@@ -4,5 +4,6 @@ CONSTANTS
   MaxStmts = 2
   MaxRw = 2
   Kinds = {"InsertCmt", "RenameVar", "RenameFn", "RenameMixin", "SwapSep", "Hoist", "InsertDebug", "MoveToPartial"}
+  Unguarded = FALSE
 INVARIANTS InvPreserved InvShape Emit
 CHECK_DEADLOCK FALSE
